@@ -11,8 +11,8 @@ CONSTANTS MaxUpd, MaxSteps, Classes,
           Alpha,      \* input alphabet: "events" | "ctl"
           MonName     \* which monitor runs in lock-step: "C03" | "C13" | "C05" | "C14" | "none"
 
-VARIABLES s, ev, m, hist
-vars == <<s, ev, m, hist>>
+VARIABLES s, ev, m, hist, prev      \* prev: the state before the last step (for the transition cover)
+vars == <<s, ev, m, hist, prev>>
 
 Mon03 == INSTANCE Mon_C03
 Mon13 == INSTANCE Mon_C13
@@ -107,6 +107,7 @@ Init == /\ s = Init0
         /\ ev = ResetEv
         /\ m = MStep(MInit, ResetEv, 0)
         /\ hist = <<>>
+        /\ prev = Init0
 
 Next == /\ Len(hist) < MaxSteps
         /\ \E in \in Inputs(s) :
@@ -116,6 +117,7 @@ Next == /\ Len(hist) < MaxSteps
                  /\ ev' = e
                  /\ m' = MStep(m, e, Len(hist) + 1)
                  /\ hist' = Append(hist, in)
+                 /\ prev' = s
 
 Spec == Init /\ [][Next]_vars
 
@@ -143,6 +145,7 @@ Pts_os2_cap1 == <<OsPt(0, 1, 130), OsPt(1, 2, 130)>>
 Pts_os2_cap2 == <<OsPt(0, 1, 100), OsPt(1, 2, 100)>>
 Pts_mixed    == <<BiPt(0, 2), OsPt(0, 1, 130)>>   \* class 0 reports in type order
 Pts_os_big   == <<BiPt(0, 2), OsPt(0, 1, 250)>>   \* an octet string larger than a 249-byte fragment
+Pts_mixed_pk == <<[BiPt(0, 2) EXCEPT !.sv = 1], OsPt(0, 1, 130)>>   \* the binary input is configured packed (g1v1)
 EvMax_os2    == <<0, 0, 0, 0, 0, 0, 0, 2>>
 EvMax_os1    == <<0, 0, 0, 0, 0, 0, 0, 1>>
 EvMax_mixed  == <<2, 0, 0, 0, 0, 0, 0, 2>>
@@ -174,7 +177,8 @@ InKind(h) == IF h = <<>> THEN <<"init">>
                        Fld(i, "dst", "U"), Fld(i, "bad", ""), Fld(i, "ob", ""), Fld(i, "p", 0),
                        IF i.k = "read" THEN i.hs ELSE <<>>,
                        IF i.k = "adv" THEN i.dt > 50 ELSE FALSE>>
-CoverView == <<AbsState(s), InKind(hist)>>
+\* abstract transition = (abstract source state, input kind, abstract target state)
+CoverView == <<AbsState(prev), InKind(hist), AbsState(s)>>
 ExportAll == hist = <<>> \/ PrintT(<<"SCENARIO", ToJson(hist)>>)
 
 \* scenario export: every behaviour prefix of length MaxSteps (simulation mode)
